@@ -535,6 +535,12 @@ Section Pipeline.
       else Err
     else Ok r.
 
+  (* the re-check at the end of HashTransformerPlugin.Transform (fix "HashTransformer checks that the hash-suffixed names
+     do not collide with the id of another resource"): the id of every renamed resource occurs exactly once *)
+  Definition hash_check (m1 : list resource) : res unit :=
+    if forallb (fun r => negb (r_needs_hash r) || Nat.eqb (count_id pipe_cs (cur_id pipe_cs r) m1) 1) m1
+    then Ok tt else Err.
+
   (* SortOrderTransformerPlugin.Transform: legacy = sort by (gvk rank, gvk, namespace, name) then re-Append *)
   Definition rid_of (r : resource) : LegacySort.rid :=
     let id := cur_id pipe_cs r in
@@ -578,8 +584,8 @@ Section Pipeline.
     end.
 
   (* KustTarget.IgnoreLocal: DropLocalNodes (GetValidatedMetadata of every non-empty document, then the
-     local-config annotation), Factory.FromResourceSlice of what is kept - which PANICS on an id collision -
-     and ResAccumulator.Intersection: every resource whose id (compared with ==) is not among the kept ones is
+     local-config annotation), Append of what is kept to a fresh ResMap - an id collision is an ERROR
+     (/repo 66fde0c; it was a panic in Factory.FromResourceSlice) - and ResAccumulator.Intersection: every resource whose id (compared with ==) is not among the kept ones is
      Removed, and Remove fails unless exactly one resource carries that id *)
   Definition resid_raw_eqb (a b : resid) : bool :=
     String.eqb (id_name a) (id_name b) && String.eqb (id_ns a) (id_ns b) &&
@@ -613,7 +619,8 @@ Section Pipeline.
     match append_all pipe_cs [] kept with
     | Ok _ => remove_loop (map (cur_id pipe_cs) m) (map (cur_id pipe_cs) kept) m
     | Diverge => Diverge
-    | _ => Panic                                   (* FromResourceSlice: panic(err) *)
+    | _ => Err                                     (* Append of the kept resources: the id conflict is an error
+                                                      (/repo 66fde0c; Factory.FromResourceSlice used to panic) *)
     end.
 
   (* krusty.Run (default options, no buildMetadata, default openapi) *)
@@ -623,6 +630,7 @@ Section Pipeline.
     | PDir _ _ _ =>
         do m <- accumulate t;
         do m1 <- mapM hash_res m;                      (* addHashesToNames *)
+        do _ <- hash_check m1;                         (*   ... and its id re-check *)
         do rules <- pipe_rules;
         do m2 <- nameref_transform pipe_cs nonstr rules m1;      (* FixBackReferences *)
         do m2l <- ignore_local m2;                     (* IgnoreLocal *)
